@@ -189,19 +189,33 @@ func c08Chain(r *h.Result, rng *h.Rng, n int, g mgen) error {
 		if err != nil {
 			continue
 		}
+		op, im, cs, err := chainCase(r, query, script, ser, i%101 == 0)
+		if err != nil {
+			return err
+		}
+		if op != "" {
+			ops, impl, cases = append(ops, op), append(impl, im), append(cases, cs)
+		}
+	}
+	return r.Compare("chain", ops, impl, cases)
+}
+
+// chainCase: stage oracle on the planner chain of one query; returns the model op and the implementation's answer
+func chainCase(r *h.Result, query string, script *logql_parser.LogQLScript, ser string, sample bool) (string, string, any, error) {
+	{
 		var p shared.SQLRequestPlanner
-		p, err = clickhouse_planner.Plan(script, true)
+		p, err := clickhouse_planner.Plan(script, true)
 		if err != nil {
 			r.Violate("C08/fragment-query-not-planned", "a metric query of the modelled fragment is rejected by Plan: "+err.Error(), map[string]any{"query": query})
-			continue
+			return "", "", nil, nil
 		}
 		names, fp, err := chainOf(p)
 		if err != nil {
-			return fmt.Errorf("chain of %q: %w", query, err)
+			return "", "", nil, fmt.Errorf("chain of %q: %w", query, err)
 		}
 		nLabel, err := fpChainOf(fp)
 		if err != nil {
-			return fmt.Errorf("fingerprint chain of %q: %w", query, err)
+			return "", "", nil, fmt.Errorf("fingerprint chain of %q: %w", query, err)
 		}
 		shortcut := clickhouse_planner.AnalyzeMetrics15sShortcut(script)
 		// ---- the oracle: every stage written in the query is planned exactly once, in the order of the text
@@ -255,9 +269,6 @@ func c08Chain(r *h.Result, rng *h.Rng, n int, g mgen) error {
 				steps = append(steps, "by")
 			}
 		}
-		ops = append(ops, "c08order "+ser)
-		impl = append(impl, fmt.Sprintf("%s:%s;labels=%d;lines=%d", kind, strings.Join(steps, ","), nLabel, len(gotLines)))
-		cases = append(cases, map[string]any{"query": query, "planned": names})
 		r.Case("chain:"+query, true)
 		if shortcut {
 			r.Count("chain:shortcut")
@@ -265,9 +276,10 @@ func c08Chain(r *h.Result, rng *h.Rng, n int, g mgen) error {
 				r.Count("chain:shortcut-with-label-filter")
 			}
 		}
-		if i%101 == 0 {
+		if sample {
 			r.Sample(map[string]any{"stream": "chain", "query": query, "planned": names, "label_filters": nLabel})
 		}
+		return "c08order " + ser, fmt.Sprintf("%s:%s;labels=%d;lines=%d", kind, strings.Join(steps, ","), nLabel, len(gotLines)),
+			map[string]any{"query": query, "planned": names}, nil
 	}
-	return r.Compare("chain", ops, impl, cases)
 }
